@@ -456,3 +456,25 @@ package orda
 //@   replay-input size = its.SnapshotDatatype.Snapshot.(as *listSnapshot).size
 //@   ensures[invalid-position-is-an-error] !(pos >= 0 && pos < old(its.SnapshotDatatype.Snapshot.(as *listSnapshot).size)) ==> result1 != nil
 //@   modifies *
+
+// ---------------------------------------------------------------------------------------
+// Document: JSON-Patch targets (C19). A patch path is a JSON pointer (RFC 6901): "/"-separated reference tokens in
+// which "~1" stands for "/" and "~0" for "~". getTargetFromPatch must hand back the node at the pointer's parent and
+// the DECODED last token, and must answer any malformed pointer (e.g. "" = the whole document) with an error.
+// ---------------------------------------------------------------------------------------
+//@ pred unescapeRef(tok string) = replaceAll(replaceAll(tok, "~1", "/"), "~0", "~")
+
+//@ func (*jsonPrimitive).getTargetByPaths
+//@   trusted walks the document tree from the root along object keys / array positions (json types not under contract yet)
+//@   mode math
+//@   ensures result1 != nil ==> result0 == nil
+//@   modifies nothing
+
+//@ func (*jsonPrimitive).getTargetFromPatch
+//@   mode math
+//@   props C19 C03
+//@   requires its.common != nil && its.common.BaseDatatype != nil
+//@   replay-input path = path
+//@   ensures[pointer-without-a-slash-is-an-error] !contains(path, "/") ==> result2 != nil
+//@   ensures[key-is-the-decoded-last-token] result2 == nil ==> result1 == unescapeRef(strings.splitLast(path, "/"))
+//@   modifies nothing
